@@ -34,12 +34,13 @@ typedef struct {
 
 static bool is_dict_size_valid(size_t size)
 {
-	size_t x = size & (size - 1);
+	/* lowest set bit: the size must be 2^n or 2^n + 2^(n+1) */
+	size_t low = size & (~size + 1);
 
-	if (x == 0)
+	if (size == low)
 		return true;
 
-	return size == (x | (x >> 1));
+	return size == (low | (low << 1));
 }
 
 static int xz_write_options(sqfs_compressor_t *base, sqfs_file_t *file)
